@@ -7,6 +7,7 @@ import (
 	"context"
 	"errors"
 	"fmt"
+	"math"
 	"sync"
 	"time"
 
@@ -66,7 +67,9 @@ func checkConfig(cfg Config) error {
 		return ErrInvalidModifyResponseProbability
 	}
 
-	if cfg.MaxIncreaseDelta <= 0 {
+	// The delta is added to the intervals as a time.Duration: an unbounded
+	// number of seconds would overflow it and shorten the interval.
+	if cfg.MaxIncreaseDelta <= 0 || cfg.MaxIncreaseDelta > math.MaxInt32 {
 		return ErrInvalidMaxIncreaseDelta
 	}
 
